@@ -95,6 +95,7 @@ Proof.
     + destruct (closed s); inversion H; subst; exact HC.
     + inversion H; subst. unfold Cons, items in *. cbn [cs note_taken set_lists taken ctrl req added].
       rewrite Er in HC. perm_goal z. perm_hyp z HC. perm_fin.
+  - destruct (negb (is_mq (knd c))); [discriminate|]. inversion H; subst. exact HC.
 Qed.
 
 Lemma ritems_repeat_idle n : ritems (repeat Idle n) = [].
@@ -255,6 +256,7 @@ Proof.
   - destruct (negb (is_mq (knd c))); [discriminate|]. destruct (closed s); [inversion H; subst; auto|].
     destruct (ctrl s); [destruct (req s)|]; inversion H; subst; auto.
   - destruct (negb (is_sync (knd c))); [discriminate|]. destruct (req s); [destruct (closed s)|]; inversion H; subst; auto.
+  - destruct (negb (is_mq (knd c))); [discriminate|]. inversion H; subst; auto.
 Qed.
 
 Ltac rel_fin Hop :=
@@ -314,6 +316,8 @@ Proof.
     destruct (negb (is_sync (knd c))); [discriminate|]. destruct (req s) as [|y r].
     + destruct (closed s) eqn:Ecl; inversion H; subst; cbn [mon_lab]; constructor; auto; rel_fin Hop.
     + inversion H; subst. cbn [mon_lab]. constructor; auto; rel_fin Hop.
+  - (* LTryClear *)
+    destruct (negb (is_mq (knd c))); [discriminate|]. inversion H; subst. cbn [mon_lab]. constructor; auto; rel_fin Hop.
 Qed.
 
 Lemma nodup_app_l (a b : list Z) : NoDup (a ++ b) -> NoDup a.
@@ -334,10 +338,9 @@ Proof. unfold dones_of. intros H. apply dones_from_in in H as [_ H]. now rewrite
 Lemma rel_obs k s m ob : Rel s m -> NoDup (added s) -> obs_ok s ob = true -> mon_obs k m ob = true.
 Proof.
   intros [HI HC HD Hcl Htk Hin Hop] Hnd H. unfold obs_ok in H.
-  repeat (apply andb_prop in H as [H ?]).
-  match goal with Q : rets_eqb _ _ = true |- _ => apply rets_eqb_eq in Q; rename Q into Eret end.
-  match goal with Q : nats_eqb _ _ = true |- _ => apply nats_eqb_eq in Q; rename Q into Epark end.
-  rename H into Hq.
+  apply andb_prop in H as [H Ewc]. apply andb_prop in H as [H Ecl]. apply andb_prop in H as [H Elen].
+  apply andb_prop in H as [H Estk]. apply andb_prop in H as [H Epark]. apply andb_prop in H as [Hq Eret].
+  apply rets_eqb_eq in Eret. apply nats_eqb_eq in Epark.
   unfold mon_obs. rewrite <- Eret, <- Epark, Htk. unfold dones_of at 2 3 4. rewrite res_items_dones.
   assert (Hperm : Permutation ((ritems (cs s) ++ taken s) ++ items s) (added s)) by (rewrite <- app_assoc; exact HC).
   assert (Hnd2 : NoDup (ritems (cs s) ++ taken s)).
@@ -353,11 +356,13 @@ Proof.
       unfold parked_of in Ep. rewrite (tids_from_cnt0 0 is_waiting (cs s) El) in Ep. discriminate. }
     destruct (HI Hw) as [Hopen Hle]. rewrite (quiescent_nwoken s Hq) in Hle.
     assert (Hit : items s = []) by (destruct (items s); [reflexivity|cbn in Hle; lia]).
-    rewrite Hcl, Hopen. cbn [negb andb].
-    destruct (o_len ob) as [n0|].
-    + match goal with Q : Nat.eqb n0 _ = true |- _ => apply Nat.eqb_eq in Q; rewrite Q end. rewrite Hit. reflexivity.
-    + apply Nat.leb_le. rewrite (Hop Hopen). rewrite Hit, app_nil_r in Hperm.
-      rewrite (Permutation_length Hperm). lia.
+    rewrite Hcl, Hopen. cbn [negb andb]. apply andb_true_intro. split.
+    + destruct (o_len ob) as [n0|].
+      * apply Nat.eqb_eq in Elen. rewrite Elen, Hit. reflexivity.
+      * apply Nat.leb_le. rewrite (Hop Hopen). rewrite Hit, app_nil_r in Hperm.
+        rewrite (Permutation_length Hperm). lia.
+    + rewrite Hopen in Ecl. destruct (o_closed ob) as [[|]|]; cbn in Ecl; try discriminate; reflexivity.
+  - rewrite Hcl. exact Ewc.
 Qed.
 
 Lemma nodup_app_drop (a b : list Z) x : NoDup (a ++ x :: b) -> NoDup (a ++ b).
